@@ -81,6 +81,12 @@ func (p *Provider) start(ctx context.Context, ammoFile afero.File) error {
 		if err != nil {
 			return errors.Wrap(err, "gPRC Provider scan() err")
 		}
+		if p.Limit != 0 && ammoNum >= p.Limit {
+			break
+		}
+		if ammoNum == 0 {
+			return errors.New("no ammo in file")
+		}
 		if p.Passes != 0 && passNum >= p.Passes {
 			break
 		}
